@@ -6,6 +6,7 @@ XPATH_ERROR_CODES, AST shape of the two `parse` methods, writers of the cursor a
 -/
 import EPV.Gen.C03Tables
 import EPV.Props.C03
+import EPV.Spec.HandlerCover
 namespace EPV.C03
 open EPV.PState EPV.Lexer EPV.XErr EPV.Gen.C03
 
@@ -81,6 +82,27 @@ theorem xpath_error_code_nonempty_live (pfx code : String) :
 example : 90 ≤ codeMap.length ∧ 10 ≤ classGraph.length ∧
     isEPE classGraph "ValueError" = false ∧ isEPE classGraph "ElementPathLocaleError" = true := by
   decide +kernel
+
+/-! ### static exception closure of the arithmetic handlers (supports the explored part (c)) -/
+
+/-- PARTIAL (static over-approximation, baseline gaps = `EPV.C03Cover.knownGaps`): in every
+`try … except` of the operator and function modules whose body divides, takes a power or converts with
+`int()/float()/Decimal()/math.*`, each exception class the standard library can raise from that
+operation is caught by a handler (directly or through a base class) — except the listed gaps of the
+reference tree.  Dropping a class from such a handler breaks this theorem. -/
+theorem arith_handlers_cover_partial : tryTable.all EPV.C03Cover.rowOK = true := by decide +kernel
+
+/-- the `idiv` handlers catch ZeroDivisionError, decimal.InvalidOperation and OverflowError (the seeded
+change that dropped InvalidOperation is the counter-example this guards against) -/
+theorem idiv_handlers :
+    (tryTable.filter (fun r => r.2.1 == "evaluate__idiv_operator" && r.2.2.1.contains "floordiv")).all
+      (fun r => ["ZeroDivisionError", "InvalidOperation", "OverflowError"].all (EPV.C03Cover.covers r.2.2.2)) = true ∧
+    (tryTable.filter (fun r => r.2.1 == "evaluate__idiv_operator" && r.2.2.1.contains "floordiv")).length = 1 := by
+  decide +kernel
+
+/-- the gap list is not vacuous padding: without it the table is NOT covered (test) -/
+example : 15 ≤ tryTable.length ∧ EPV.C03Cover.covers ["TypeError"] "InvalidOperation" = false ∧
+    EPV.C03Cover.covers ["ArithmeticError"] "DivisionByZero" = true := by decide +kernel
 
 /-! ### (a) the shape of the two `parse` methods and the writers of the cursor -/
 
